@@ -191,6 +191,113 @@ def _strptime(I, args, kw):
 models._REG['datetime.datetime.strptime'] = Builtin('datetime.datetime.strptime', _strptime)
 
 
+def _now(I, args, kw):
+    """the wall clock: an arbitrary instant between years 1 and 9999"""
+    t = I.ctx.fresh('now')
+    I.ctx.assume(sym.And(sym.ge(t, 0), sym.lt(t, sym.mul(sym.days_before_year(9999), 86400))))
+    return DT(t, None)
+
+
+for _nm in ('now', 'today', 'utcnow'):
+    models._REG['datetime.datetime.' + _nm] = Builtin('datetime.datetime.' + _nm, _now, 'datetime.now(): an arbitrary instant (wall clock)')
+
+
+_YEAR_OF = z3.Function('year_of_day', z3.IntSort(), z3.IntSort())
+_DOY_OF = z3.Function('doy_of_day', z3.IntSort(), z3.IntSort())
+
+
+class DecText:
+    """decimal text produced by strftime: only int() of it is modelled"""
+
+    def __init__(self, value, fmt):
+        self.value, self.fmt = value, fmt
+
+
+T_STRFTIME = ("datetime.strftime('%Y%j') / ('%H%M%S'): the unique year Y in 1..9999 and day-of-year J in 1..len(Y) with "
+              "days_before_year(Y) + J - 1 = floor(seconds / 86400); hour, minute, second of the remaining seconds (fractions dropped)")
+
+
+_ARITH_OK = {}
+
+
+def _validated(name, build):
+    """a redundant arithmetic fact handed to the solver as a hint is first PROVED generically (once per process) by z3
+    over fresh constants; it is only ever used as an instance of that theorem"""
+    if name not in _ARITH_OK:
+        consts, hyp, concl = build()
+        s_ = z3.Solver()
+        s_.set('timeout', 20000)
+        s_.add(hyp, z3.Not(concl))
+        _ARITH_OK[name] = (s_.check() == z3.unsat, consts, hyp, concl)
+    ok, consts, hyp, concl = _ARITH_OK[name]
+    return ok, consts, hyp, concl
+
+
+def _hint(I, name, build, actual):
+    ok, consts, hyp, concl = _validated(name, build)
+    if not ok:
+        return
+    inst = z3.substitute(z3.Implies(hyp, concl), *[(c, sym.to_z3(a)) for c, a in zip(consts, actual)])
+    I.ctx.assume(inst)
+
+
+def _th_daysplit():
+    w, d, r = z3.Ints('th_w th_d th_r')
+    return [w, d, r], z3.And(d == w / 86400, r == w % 86400), z3.And(w == d * 86400 + r, r >= 0, r < 86400)
+
+
+def _th_hms():
+    r, h, m, s_, t = z3.Ints('th_r th_h th_m th_s th_t')
+    hyp = z3.And(r >= 0, r < 86400, h == r / 3600, m == (r / 60) % 60, s_ == r % 60, t == h * 10000 + m * 100 + s_)
+    concl = z3.And(h >= 0, h < 24, m >= 0, m < 60, s_ >= 0, s_ < 60, r == h * 3600 + m * 60 + s_,
+                   t / 10000 == h, (t / 100) % 100 == m, t % 100 == s_, t >= 0)
+    return [r, h, m, s_, t], hyp, concl
+
+
+def _th_yj():
+    y, j, v = z3.Ints('th_y th_j th_v')
+    return [y, j, v], z3.And(y >= 1, j >= 1, j <= 366, v == y * 1000 + j), z3.And(v / 1000 == y, v % 1000 == j, v >= 1000)
+
+
+def _calendar_fields(I, dt):
+    """(Y, J, seconds of day) of an instant: the inverse of the day-number map, introduced by its defining property"""
+    if 'yj' in dt.fields:
+        return dt.fields['yj']
+    I.ctx.trust(T_STRFTIME)
+    whole = sym.floor_(dt.sec) if (is_sym(dt.sec) and z3.is_real(dt.sec)) or isinstance(dt.sec, Fraction) else dt.sec
+    day = sym.floordiv(whole, 86400)
+    sod = sym.mod(whole, 86400)
+    # functions of the day number (so that two conversions of the same day agree by congruence)
+    y, j = _YEAR_OF(sym.to_z3(day)), _DOY_OF(sym.to_z3(day))
+    I.ctx.assume(sym.And(sym.ge(y, 1), sym.le(y, 9999), sym.ge(j, 1), sym.le(j, days_in_year(y)),
+                         sym.eq(sym.add(sym.days_before_year(y), sym.sub(j, 1)), day)))
+    if is_sym(whole):
+        _hint(I, 'daysplit', _th_daysplit, [whole, day, sod])
+    dt.fields['yj'] = (y, j, sod)
+    return dt.fields['yj']
+
+
+def _strftime(I, dt, args, kw):
+    fmt = args[0]
+    if fmt == '%Y%j':
+        y, j, _ = _calendar_fields(I, dt)
+        v = sym.add(sym.mul(y, 1000), j)
+        if is_sym(v):
+            _hint(I, 'yj', _th_yj, [y, j, v])
+        return DecText(v, fmt)
+    if fmt == '%H%M%S':
+        _, _, sod = _calendar_fields(I, dt)
+        h, m, sec = sym.floordiv(sod, 3600), sym.mod(sym.floordiv(sod, 60), 60), sym.mod(sod, 60)
+        v = sym.add(sym.add(sym.mul(h, 10000), sym.mul(m, 100)), sec)
+        if is_sym(v):
+            _hint(I, 'hms', _th_hms, [sod, h, m, sec, v])
+        return DecText(v, fmt)
+    raise Unsupported('strftime %r' % (fmt,))
+
+
+models.register_hook('int_', lambda I, x: x.value if isinstance(x, DecText) else None)
+
+
 def _binop(I, op, a, b):
     import ast
     from .nparr import SArr
@@ -261,6 +368,8 @@ def _value_getattr(I, obj, name):
                     return DT(r.sec, k.get('tzinfo'), r.fields)
                 raise Unsupported('datetime.replace')
             return BoundModel(replace, obj)
+        if name == 'strftime':
+            return BoundModel(_strftime, obj)
         if name in ('year', 'month', 'day', 'hour', 'minute', 'second'):
             raise Unsupported('calendar field %s of a computed datetime' % name)
     if isinstance(obj, _TZ) and name == 'utc':
